@@ -78,7 +78,10 @@ NewSess(nwk, app, addr) == [EmptySess EXCEPT !.nwk = nwk, !.app = app, !.addr = 
 
 InitMac(r, maxpw, gain) ==
     [region |-> r, act |-> "unjoined", devNonce |-> None, appKey |-> NoKey,
-     sess |-> EmptySess, cfg |-> InitCfg(r), plan |-> InitPlan(r), maxpw |-> maxpw, gain |-> gain]
+     sess |-> EmptySess, cfg |-> InitCfg(r), plan |-> InitPlan(r), maxpw |-> maxpw, gain |-> gain,
+     \* optional build: certification-protocol handler compiled in; frame type override it can set
+     \* (-1 none, 0 all uplinks unconfirmed, 1 all uplinks confirmed)
+     cert |-> FALSE, ovr |-> -1]
 
 Joined(m) == m.act = "joined"
 
@@ -261,8 +264,10 @@ Queue(pending, ans, n) ==
 \* header fields of the next data uplink and the state after preparing it
 AdrAckReq(m) == m.cfg.adr /\ m.sess.adrCnt >= AdrLimit /\ LowerDr(m.region, m.cfg.dr) # None
 
+\* the frame type an uplink really gets (TS009 TxFramesCtrlReq may override the application's choice)
+EffConfirmed(m, confirmed) == IF m.ovr = -1 THEN confirmed ELSE m.ovr = 1
 UplinkFields(m, port, confirmed) ==
-    [mtype |-> IF confirmed THEN 4 ELSE 2,
+    [mtype |-> IF EffConfirmed(m, confirmed) THEN 4 ELSE 2,
      addr |-> m.sess.addr,
      adr |-> IF m.cfg.adr THEN 1 ELSE 0,
      adrackreq |-> IF AdrAckReq(m) THEN 1 ELSE 0,
@@ -273,7 +278,7 @@ UplinkFields(m, port, confirmed) ==
      macPayload |-> IF port = 0 THEN m.sess.pending ELSE <<>>]
 
 AfterSendPrepare(m, confirmed) ==
-    [m EXCEPT !.sess.ackOwed = FALSE, !.sess.confirmed = confirmed, !.sess.pending = Sticky(m.sess.pending)]
+    [m EXCEPT !.sess.ackOwed = FALSE, !.sess.confirmed = EffConfirmed(m, confirmed), !.sess.pending = Sticky(m.sess.pending)]
 
 \* ------------------------------------------------------------------ end of the receive procedure
 SessionExpired(m) == m.sess.up = CntMax
@@ -330,6 +335,39 @@ AnswersFor(r, reqs, sts, margin) ==
                     [] OTHER -> <<>>
          IN a \o AnswersFor(r, Tail(reqs), Tail(sts), margin)
 
+\* ------------------------------------------------------------------ certification protocol (TS009, FPort 224)
+\* Only in a build with the handler compiled in (m.cert).  The command of an FPort-224 payload the handler acts
+\* upon: commands are taken in order (lengths: 1, 2, 9, 32, 127 no payload; 4, 6 one octet; 7, 8 the rest of the
+\* frame, at least one octet); a command with a reserved value (AdrBitChangeReq > 1, TxPeriodicityChangeReq > 10,
+\* TxFramesCtrlReq > 2) is passed over; an unknown CID or a truncated command ends the walk.  cid -1: none.
+CertPort == 224
+NoCert == [cid |-> -1, arg |-> <<>>]
+RECURSIVE CertCommand(_)
+CertCommand(p) ==
+    IF p = <<>> THEN NoCert
+    ELSE LET c == p[1] IN
+         CASE c \in {1, 2, 9, 32, 127} -> [cid |-> c, arg |-> <<>>]
+           [] c = 8 -> IF Len(p) >= 2 THEN [cid |-> 8, arg |-> SubSeq(p, 2, Len(p))] ELSE NoCert
+           [] c = 7 -> IF Len(p) >= 2 /\ p[2] <= 2 THEN [cid |-> 7, arg |-> <<p[2]>>] ELSE NoCert
+           [] c \in {4, 6} -> IF Len(p) < 2 THEN NoCert
+                              ELSE IF p[2] <= (IF c = 4 THEN 1 ELSE 10) THEN [cid |-> c, arg |-> <<p[2]>>]
+                              ELSE CertCommand(SubSeq(p, 3, Len(p)))
+           [] OTHER -> NoCert
+\* is the verdict v a certification frame for m, and which command does it carry
+IsCert(m, v) == m.cert /\ v.port = CertPort
+CertOf(m, v) == IF IsCert(m, v) THEN CertCommand(v.payload) ELSE [cid |-> -2, arg |-> <<>>]
+\* the FRMPayload of the uplink the handler prepares in answer (n = counter of the downlink that carried the request)
+CertAnswer(cmd, n) ==
+    CASE cmd.cid = 8 -> <<8>> \o [i \in 1..(IF Len(cmd.arg) > 241 THEN 241 ELSE Len(cmd.arg)) |-> (cmd.arg[i] + 1) % 256]
+      [] cmd.cid = 9 -> <<9, n[2] % 256, n[2] \div 256>>
+      [] cmd.cid = 127 -> <<127, 0, 0, 0, 1, 1, 0, 4, 0, 2, 1, 0, 4>>
+      [] OTHER -> <<>>
+\* state effect of the command itself (ADR bit, frame type override); everything else has none
+CertEffect(m, cmd) ==
+    CASE cmd.cid = 4 -> [m EXCEPT !.cfg.adr = cmd.arg[1] = 1]
+      [] cmd.cid = 7 -> IF cmd.arg[1] = 0 THEN m ELSE [m EXCEPT !.ovr = cmd.arg[1] - 1]
+      [] OTHER -> m
+
 \* v: [n (counter), confirmed (BOOL), fopts (bytes), port (-1 none), payload (plaintext bytes), classA (BOOL)]
 \* sts: statuses of Requests(ParseDown(fopts)) followed by those of the port-0 payload's requests
 DownRequests(v) ==
@@ -344,11 +382,13 @@ AfterRxAccepted(m, v, sts, margin) ==
         q  == Queue(m2.sess.pending, AnswersFor(m.region, reqs, sts, margin), 0)
         m3 == [m2 EXCEPT !.sess.pending = q.pending,
                          !.sess.ackOwed = m.sess.ackOwed \/ v.confirmed]
-    IN IF SessionExpired(m) THEN m3 ELSE [m3 EXCEPT !.sess.up = CntInc(m.sess.up)]
+        m4 == IF SessionExpired(m) THEN m3 ELSE [m3 EXCEPT !.sess.up = CntInc(m.sess.up)]
+    IN IF SessionExpired(m) THEN m4 ELSE CertEffect(m4, CertOf(m, v))
 
 RxAcceptedResp(m) == IF SessionExpired(m) THEN "SessionExpired" ELSE "DownlinkReceived"
 \* the application payload is delivered iff the frame carries a port > 0 (and the session is alive)
-Delivered(m, v) == ~SessionExpired(m) /\ v.port > 0
+\* (a certification frame reaches the application only when its command is one the handler does not answer itself)
+Delivered(m, v) == ~SessionExpired(m) /\ v.port > 0 /\ (IsCert(m, v) => CertOf(m, v).cid \in {4, 7})
 
 \* ------------------------------------------------------------------ join
 AfterJoinReq(m, devNonce, appKey) ==
@@ -379,7 +419,7 @@ AfterJoinAccept(m, ja, nwk, app) ==
         rx2 == ja.dlSettings % 16
         del == ja.rxDelay % 16
     IN [m EXCEPT !.act = "joined", !.devNonce = None, !.appKey = NoKey,
-                 !.sess = NewSess(nwk, app, ja.devAddr),
+                 !.sess = NewSess(nwk, app, ja.devAddr), !.ovr = -1,
                  !.cfg.rx1delay = 1000 * (IF del = 0 THEN 1 ELSE del),
                  !.cfg.rx1off = IF off <= MaxRx1Offset(r) THEN off ELSE m.cfg.rx1off,
                  !.cfg.rx2dr = IF DrDefined(r, rx2) THEN rx2 ELSE m.cfg.rx2dr,
@@ -389,7 +429,7 @@ AfterJoinAccept(m, ja, nwk, app) ==
 AfterSetAdr(m, on) == [m EXCEPT !.cfg.adr = on, !.sess.adrCnt = IF on \/ ~Joined(m) THEN m.sess.adrCnt ELSE 0]
 AfterSetDr(m, d) == [m EXCEPT !.cfg.dr = d]
 AfterAbp(m, nwk, app, addr) == [m EXCEPT !.act = "joined", !.devNonce = None, !.appKey = NoKey,
-                                          !.sess = NewSess(nwk, app, addr)]
+                                          !.sess = NewSess(nwk, app, addr), !.ovr = -1]
 
 \* ------------------------------------------------------------------ radio parameters of a transmission
 \* the channels / data rates a transmission may use:  set of [freq, dr, rx1f]
